@@ -16,7 +16,7 @@ var serveExplain = map[string]string{
 	"C11": "Structural necessary conditions of 'no state leaks between requests': (E7) every leaf field of Request, Response, RequestHeader, ResponseHeader, URI, Args, Cookie and RequestCtx is assigned (or known nil, or reset through its pointee) on every path of the type's reset method including callees, or is in a table of reasoned exemptions (scratch buffers, configuration, self pointers) - a newly added field is a violation until reset or exempted; (R-loop) every variable of the serve loop that survives an iteration is re-assigned before it is read in a later iteration on every path, or the loop provably ends; (R-reset) every path from the handler to the next iteration passes Request.Reset and Response.Reset; (R-ctx) every field of RequestCtx that a handler can set through an exported method and that the serve loop reads (hijack handler, no-response switch, timeout response) is cleared, found zero, or left behind with a replaced ctx on every path to the next request - neither Request.Reset nor Response.Reset touches them. Not decided: that getters return exactly what the current request sent.",
 	"C14": "The sequence of ConnState values the serve loop reports, decided on every path of the loop as an automaton: StateActive only follows New/Idle, StateIdle only follows Active, the handler and the response write happen in Active, an iteration that continues ends in Idle, and StateActive is only reported on a path on which a read of at least one byte succeeded; (R3) every function that runs the serve loop itself and reports states (ServeConn) reports StateNew before serving and, on every path to its return after serving, exactly one terminal state - StateHijacked exactly when the loop returned errHijacked, StateClosed otherwise. Not decided: the reports made by the worker pool (C13.R2 decides its terminal action) and cross-goroutine ordering.",
 	"C15": "Structural necessary conditions of graceful shutdown inside the serve loop, on every path: the per-connection idle marker is zero while the handler runs (so Shutdown's idle closer cannot close a busy connection), it is set non-zero after the response before the connection waits for the next request, the stop flag is tested after every response, and (R5) a response that was written into the connection writer is flushed before the writer is dropped whenever the serve function ends with a nil result (shutdown, client stopped sending) - so no answered request loses its response on a graceful end. Not decided: Shutdown's own listener/poll loop, liveness, interleavings.",
-	"C16": "Structural necessary conditions for timed-out handlers, on every path of the serve loop's timeoutResponse != nil branch: the response is written from a freshly acquired ctx into which the stored response was copied (R1); the timed-out ctx is never released to the pool by the loop (R2); no per-request field the loop stored on the old ctx is read from the fresh one (R3); (R6) the concurrency slot a timeout wrapper takes from Server.concurrencyCh is taken without blocking (429 otherwise), and it is given back only by code that has run the wrapped handler to its end - in the goroutine that calls it, after the call - exactly once; never by the wrapper's own frame, which returns when the timeout fires while the handler still runs. Not decided: what the late handler does with the old ctx, scheduling.",
+	"C16": "Structural necessary conditions for timed-out handlers, on every path of the serve loop's timeoutResponse != nil branch: the response is written from a freshly acquired ctx into which the stored response was copied (R1); the timed-out ctx is never released to the pool by the loop (R2); no per-request field the loop stored on the old ctx is read from the fresh one (R3); (R6) the concurrency slot a timeout wrapper takes from Server.concurrencyCh is taken without blocking (429 otherwise), and it is given back only by code that has run the wrapped handler to its end - in the goroutine that calls it, after the call - exactly once; never by the wrapper's own frame, which returns when the timeout fires while the handler still runs; the semaphore field is read only by code that creates the channel when it is missing (a nil channel would turn every call into a 429); (R7) every bookkeeping field the serve function keeps on the ctx (connection id, connection time, request number, request time) is assigned on every path from each point where the ctx object is acquired or replaced to the handler dispatch, so requests served after a timed-out one see them. Not decided: what the late handler does with the old ctx, scheduling.",
 	"C17": "Structural necessary conditions of connection hijacking, on every path: the response is written and flushed before the hand-off unless HijackSetNoResponse is in effect (R1); after 'go hijackConnHandler' the serve function performs no I/O on the connection and releases neither ctx nor the handed-over reader (R3); it returns errHijacked exactly on hand-off paths (R4); hijackConnHandler closes the connection after the user's handler unless KeepHijackedConns and releases the ctx (R5); hijack state a handler put on the ctx without hijacking does not survive into a later request of the connection (R6). Not decided: byte-exact hand-over of buffered data, callers' reaction to errHijacked.",
 }
 
@@ -672,8 +672,68 @@ func timeoutSemaphoreRule(p *Prog, r *Report) {
 					return true
 				}
 			}
+		case *ssa.Call:
+			// an accessor returning the field
+			if g := w.Call.StaticCallee(); g != nil && inModule(g) {
+				for _, b := range g.Blocks {
+					if rt, ok := b.Instrs[len(b.Instrs)-1].(*ssa.Return); ok {
+						for _, rv := range returnResults(rt) {
+							if isSem(rv, g, d+1) {
+								return true
+							}
+						}
+					}
+				}
+			}
 		}
 		return false
+	}
+	// R6b: the field is nil until something creates the channel, and a send on a nil channel never proceeds
+	// (every call would be answered 429). So it is read only by code that creates it when it is missing.
+	{
+		storesIt := func(f *ssa.Function) bool {
+			found := false
+			var visit func(g *ssa.Function)
+			visit = func(g *ssa.Function) {
+				for _, b := range g.Blocks {
+					for _, in := range b.Instrs {
+						if st, ok := in.(*ssa.Store); ok {
+							if base, fv := fieldOfAddr(st.Addr); fv != nil && fv.Name() == "concurrencyCh" && typeNameOf(base) == "Server" {
+								found = true
+							}
+						}
+					}
+				}
+				for _, an := range g.AnonFuncs {
+					visit(an)
+				}
+			}
+			visit(f)
+			return found
+		}
+		nread := 0
+		for _, fn := range p.funcsIn("") {
+			for _, b := range fn.Blocks {
+				for _, in := range b.Instrs {
+					u, ok := in.(*ssa.UnOp)
+					if !ok || u.Op != token.MUL {
+						continue
+					}
+					base, fv := fieldOfAddr(u.X)
+					if fv == nil || fv.Name() != "concurrencyCh" || typeNameOf(base) != "Server" {
+						continue
+					}
+					nread++
+					top := fn
+					for top.Parent() != nil {
+						top = top.Parent()
+					}
+					r.Check("R6", fmt.Sprintf("%s reads Server.concurrencyCh only where the channel is created when missing", funcName(fn)), storesIt(top), p.Pos(u.Pos()),
+						"the handler-concurrency semaphore is read straight from the field, which only some entry points initialise: on a server that never ran them the channel is nil, the non-blocking send never succeeds and every wrapped call is answered 429 although nothing is running")
+				}
+			}
+		}
+		r.Floor("R6", "reads of Server.concurrencyCh", nread, 1)
 	}
 	isHandlerCall := func(i ssa.Instruction) bool {
 		c, ok := i.(*ssa.Call)
@@ -741,3 +801,4 @@ func timeoutSemaphoreRule(p *Prog, r *Report) {
 	r.Floor("R6", "non-blocking acquisitions of Server.concurrencyCh", nacq, 1)
 	r.Floor("R6", "releases of Server.concurrencyCh", nrel, 1)
 }
+
